@@ -71,4 +71,7 @@ ZWithPlainTime(z, t, sod) == Disambiguate(z, WOf(WDate(Wall(z, t)), sod), "compa
 \* start of the local calendar day containing instant t, and that day's real length in seconds
 ZStartOfDay(z, t) == StartOfDay(z, (Wall(z, t) \div 86400) * 86400)
 DayLength(z, t) == LET d0 == (Wall(z, t) \div 86400) * 86400 IN StartOfDay(z, d0 + 86400) - StartOfDay(z, d0)
+\* the other operand of until / since in the fixed-offset zone `oz`: it is ANOTHER zone unless the receiver's zone is that very offset
+OzSec(oz) == CASE oz = "+03:00" -> 10800 [] oz = "-09:30" -> -34200 [] oz = "+00:00" -> 0
+IsOtherZone(z, oz) == ~(NT(z) = 0 /\ z.init = OzSec(oz))
 =============================================================================
